@@ -158,7 +158,7 @@ def worker(case):
     keep = False
     B = core.unb64(case["B"])
     T0 = core.unb64(case["T0"])
-    cid = core.h8([case["name"], case["cls"], case["hdr"], case["body"][:64], len(case["body"]), case["frag"], case["seq"], case.get("loglevel"), case.get("fd2")])
+    cid = core.h8([case["name"], case["cls"], case["hdr"], case["body"][:64], len(case["body"]), case["frag"], case["seq"], case.get("loglevel"), case.get("fd2"), case.get("chain"), case.get("neighbour")])
     stats = {"evaluations": 1}
     try:
         p = zckref.parse(B)
@@ -168,6 +168,15 @@ def worker(case):
         body = core.unb64(case["body"])
         L = (["closefd 2"] if case.get("fd2") else []) + ["fopen 1 t.zck rw target", "create 1", "init_read 1 1", "fv 1", "reset_failed 1", "flags 1", "dl_init 0 1",
              "range 2 1 %d" % case["limit"], "dl_set_range 0 2", "watch target %s" % allowed]
+        if case.get("chain"):
+            L.insert(0, "chain 1")   # the application's own callbacks hung behind the library's
+            stats["runs_with_application_callbacks_chained"] = 1
+        if case.get("neighbour"):
+            # a second, unrelated transfer in the same process (own context, own file): it sees the same response header, and is torn down
+            # while this one is between two header lines
+            L += ["hdrline 0 x:%s all" % b"Date: Thu, 01 Jan 1970 00:00:00 GMT\r\n".hex(),
+                  "fopen 3 t2.zck rw target2", "create 3", "init_read 3 3", "dl_init 1 3"] + ["hdrline 1 x:%s all" % h for h in case["hdr"]] + ["dl_free 1", "free 3", "fclose 3"]
+            stats["runs_beside_a_second_transfer"] = 1
         for h in case["hdr"]:
             L.append("hdrline 0 x:%s all" % h)
         L.append("body 0 f:body.bin %s cont" % case["frag"])
@@ -183,7 +192,7 @@ def worker(case):
                 L += ["hdrline 0 x:%s all" % h for h in case["hdr"]] + ["body 0 f:body.bin %s cont" % case["frag"]]
         L += ["watchstat", "watch - -", "flags 1", "dl_free 0", "range_free 2", "free 1"]
         # a third of the cases with the library's logging at DEBUG level (what zckdl -vv sets): message formatting sees the hostile bytes too
-        rd = core.run_zh(case["zh"], cdir, "\n".join(L) + "\n", {"t.zck": T0, "body.bin": body or b""}, name="dl",
+        rd = core.run_zh(case["zh"], cdir, "\n".join(L) + "\n", {"t.zck": T0, "t2.zck": T0, "body.bin": body or b""}, name="dl",
                          env_extra={"ZH_LOGLEVEL": str(case["fd2"] if case.get("fd2") else case["loglevel"])} if (case.get("loglevel") is not None or case.get("fd2")) else None)
         if case.get("fd2"):
             stats["runs_with_target_on_descriptor_2"] = 1
@@ -260,7 +269,8 @@ class C17(core.Check):
             "balanced/unbalanced/empty, 16 KiB boundaries, missing CR, NULs, repeated boundary headers, parts without Content-Range, inverted/huge/non-numeric "
             "ranges, missing terminators, thousands of parts, payload length mismatches, unrequested ranges, byte-level mutations of well-formed responses) x "
             "fragmentations (whole, 1 byte, 7 bytes, random <= 16 KiB) x sequences (single, second response after zck_dl_reset, after zck_clear_error, repeated "
-            "without reset); stage 2: libFuzzer target with ASan+UBSan and an in-target confinement/validity monitor. distinct = (class, header lines, body, "
+            "without reset); a quarter with the application's own callbacks chained behind the library's, a fifth beside a second transfer (own context and file) that sees the same "
+            "header lines and is freed in between; stage 2: libFuzzer target with ASan+UBSan and an in-target confinement/validity monitor. distinct = (class, header lines, body, "
             "fragmentation, sequence)")
     assumptions = ["confinement judged from the write(2) interposer's log and an image diff", "valid flags re-checked with hashlib"]
     worker = staticmethod(worker)
@@ -297,7 +307,7 @@ class C17(core.Check):
                     seq = r.choice([["retry"], ["retry", "reset"], ["clear", "retry"]])
                 out.append({"name": "f%d" % fi, "B": core.b64(B), "T0": core.b64(bytes(T0)), "M": M, "limit": limit, "cls": cls,
                             "hdr": [h.hex() for h in hdr], "body": core.b64(body), "frag": frag, "seq": seq, "zh": ctx["zh"],
-                            "fd2": 3 if r.random() < 0.15 else None,
+                            "fd2": 3 if r.random() < 0.15 else None, "chain": 1 if r.random() < 0.25 else 0, "neighbour": 1 if r.random() < 0.2 else 0,
                             "loglevel": 0 if (cls in ("boundary-long", "boundary-metachar", "header-malformed") or r.random() < 0.25) and not frag.startswith("n:1") else None})
             # a part header that never seems to end: more than a megabyte before the blank line (a real range and payload follow), delivered in
             # transport-sized pieces; the caller clears the error, if any, and carries on / retries / resets
